@@ -34,6 +34,8 @@ def stdout_write(call):
         if f is not None and _is_stdout_expr(f):
             return d + '(file=sys.stdout)'
         return None
+    if d in ('contextlib.redirect_stdout', 'redirect_stdout'):
+        return 'redirect_stdout(...) swaps the process-wide sys.stdout (other threads write there meanwhile)'
     if d == 'input':
         if call.args and not (isinstance(call.args[0], ast.Constant) and call.args[0].value == ''):
             return 'input(<prompt>) writes the prompt to stdout'
